@@ -38,6 +38,12 @@ META = {'design_ref': 'DESIGN.md section 7 / C16',
                'covered by the engine model (v_out is called at seat time with the resolution the encoder uses: lock-step correspondence) and by the wire '
                'monitor mon_c16_wire on the implementation trace: every PUBLISH / SUBSCRIBE / UNSUBSCRIBE / ack on the wire respects the Maximum QoS, Retain '
                'Available, Wildcard / Shared Subscription Available and (MQTT 5, size of the bytes actually sent, alias included) Maximum Packet Size of the '
-               'last CONNACK.',
+               'last CONNACK. Bridge to the wire specification (C16_accepted_is_wire_valid, ValidateProofs/Bridge*.v): a PUBLISH / SUBSCRIBE / UNSUBSCRIBE / '
+               'DISCONNECT value of the Rust packet type whose erased form passed validate_packet_outbound and which passed '
+               'validate_packet_outbound_internal with its alias resolution satisfies Codec/ValidC2S.valid (the premise of the C02 round-trip '
+               'theorems), given an engine-allocated packet id, a resolver\'s resolution and a length below 4 GiB; the send-time validator alone does '
+               'not give this (C16_send_time_check_alone_insufficient: empty topic without alias, U+0000 in the topic, empty SUBSCRIBE / UNSUBSCRIBE, '
+               'subscription identifier 0 pass it). The malformed-$share hole (D8) and the unchecked Subscription Identifiers Available flag (D4b) are '
+               'no obstacles to wire well-formedness: such packets are well-formed MQTT packets that break rules of another kind.',
  'technique': 'machine-checked proof in Coq (case analysis over the validation code, induction over topic levels) + lock-step correspondence of the extracted '
               'model and specification monitor with the implementation, including an exhaustive filter table'}
